@@ -60,7 +60,8 @@ theorem feed_run_first (st0 : St) (hacc : st0.acc = .horiz1) (hnode : st0.node =
     ⟨hsl.wd, hsl.ba, hsl.rvs, hsl.rf, hsl.cl, hsl.cp, hsl.bf⟩, by simp [hcol], rfl, by simp [hcol], by simp [hn.1]; omega, rfl, ?_⟩
   intro pos rest
   rw [he, List.append_assoc, hf0, feed_follow_leaf _ sa _ rest _ hne (by rw [hin'.node, hcol]; exact hfl)]
-  simp only [accept, hacc', parseHoriz1, ht, if_true, afterAccept, List.length_append]
+  have ht1 := (horiz1Term_iff t).2 ht
+  simp only [accept, hacc', parseHoriz1, ht1, if_true, afterAccept, List.length_append, CcittCode.horiz1Flip]
   rw [Nat.add_assoc]
 
 /-- Second run of a horizontal mode: `_parse_horiz2` until a terminating code, then
@@ -84,7 +85,8 @@ theorem feed_run_second (st1 : St) (hacc : st1.acc = .horiz2) (hnode : st1.node 
     ⟨hsl.wd, hsl.ba, hsl.rvs, hsl.rf, hsl.cl, hsl.cp, hsl.bf⟩, by simp [hcol], by simp [hn.2], by simp [hn.1]; omega, ?_⟩
   intro pos rest
   rw [he, List.append_assoc, hf0, feed_follow_leaf _ sa _ rest _ hne (by rw [hin'.node, hcol]; exact hfl)]
-  simp only [accept, hacc', parseHoriz2, ht, if_true, List.length_append]
+  have ht2 := (horiz2Term_iff t).2 ht
+  simp only [accept, hacc', parseHoriz2, ht2, if_true, List.length_append, CcittCode.horiz2Flip]
   rw [Nat.add_assoc]
 
 /-- A complete horizontal mode: H, a0a1 in the current colour, a1a2 in the other one. -/
@@ -104,7 +106,7 @@ theorem feed_horiz (st : St) (hacc : st.acc = .mode) (hnode : st.node = modeTrie
     have hH : T6.codeH ≠ [] := by decide
     rw [List.append_assoc, List.append_assoc, List.append_assoc,
       feed_follow_leaf _ st pos _ (.mode .h) hH (by rw [hnode]; exact mode_codes_ok.2.1)]
-    simp only [accept, hacc, parseMode, afterAccept]
+    simp only [accept, hacc, parseMode, modeAction_h, afterAccept]
     have := hf1 (pos + T6.codeH.length) (T6.encodeRun (!st.color) n2 ++ rest)
     simp only at this
     rw [this]
@@ -148,7 +150,7 @@ variable {w : Nat} {al rv : Bool} {ref cur : List Bool} {buf : List UInt8}
 theorem afterFlush_mid {st : St} {a0 : Int} {color : Bool} (h : Core w al rv ref cur buf st a0 color)
     (hlt : a0 < w) : afterFlush st = ({ st with acc := .mode, node := modeTrie }, .cont) := by
   have : ¬ ((st.width : Int) ≤ st.curpos) := by rw [h.wd, h.cp]; omega
-  simp [afterFlush, flushLine, this]
+  simp [afterFlush, flushLine, CcittCode.flushCond, this]
 
 theorem afterFlush_done {st : St} {color : Bool} (h : Core w al rv ref cur buf st (w : Int) color)
     (hcur : cur.length = w) :
@@ -163,9 +165,10 @@ theorem afterFlush_done {st : St} {color : Bool} (h : Core w al rv ref cur buf s
   have hle : (st.width : Int) ≤ st.curpos := by rw [h.wd, h.cp]; omega
   refine ⟨{ (resetLine { st with buf := st.buf ++ packLine st.reversed st.curline }) with
       acc := .mode, node := modeTrie }, ?_, ?_⟩
-  · simp only [afterFlush, flushLine, hle, if_true, h.ba]
+  · simp only [afterFlush, flushLine, CcittCode.flushCond, hle, decide_true, if_true, h.ba]
   · simp only [resetLine]
-    exact ⟨h.wd, h.ba, h.rvs, hc, by simp [h.wd], rfl, rfl, rfl, rfl, by simp [h.bf, h.rvs, hc]⟩
+    exact ⟨h.wd, h.ba, h.rvs, hc, by simp [h.wd, CcittCode.blankPixel], rfl, rfl, rfl, rfl,
+      by simp [h.bf, h.rvs, hc]⟩
 
 /-- What remains to be shown for the rest of a line once the next code word has been dealt with. -/
 def LineGoal (w : Nat) (al rv : Bool) (cur : List Bool) (buf : List UInt8) (st : St) (code : List Bool) : Prop :=
@@ -250,7 +253,7 @@ theorem feed_line_aux (hcur : cur.length = w) (href : ref.length = w) :
       apply step_finish hcur hc1 (by decide : T6.codeP ≠ [])
       · intro pos rest
         rw [feed_follow_leaf _ st pos rest (.mode .p) (by decide) (by rw [hnode]; exact mode_codes_ok.1)]
-        simp only [accept, hacc, parseMode]
+        simp only [accept, hacc, parseMode, modeAction_p]
       · intro hw; exact encodeLineAux_done _ _ _ _ (by omega)
       · intro st' hc' hlt' hacc' hnode'
         exact ih _ _ _ st' hc' hlt' hacc' hnode' (by omega)
@@ -264,7 +267,7 @@ theorem feed_line_aux (hcur : cur.length = w) (href : ref.length = w) :
       apply step_finish hcur hc1 hne
       · intro pos rest
         rw [feed_follow_leaf _ st pos rest _ hne (by rw [hnode]; exact hfl)]
-        simp only [accept, hacc, parseMode]
+        simp only [accept, hacc, parseMode, modeAction_v]
       · intro hw; exact encodeLineAux_done _ _ _ _ (by omega)
       · intro st' hc' hlt' hacc' hnode'
         exact ih _ _ _ st' hc' hlt' hacc' hnode' (by omega)
@@ -336,6 +339,48 @@ theorem encodeLineAux_fuel {w : Nat} {ref cur : List Bool} (hcur : cur.length = 
           have ha2 : T6.nextNot cur color (a0 + 1).toNat ≤
               T6.nextNot cur (!color) (T6.nextNot cur color (a0 + 1).toNat) := nextNot_ge _ _ _
           rw [ih f2 _ color chs.tail (by omega) (by omega) (by omega)]
+
+/-! ### `output_line` (regenerated masks and length) packs like the specification -/
+
+theorem outLen_nat (n : Nat) : (CcittCode.outLen (n : Int)).toNat = (n + 7) / 8 := by
+  simp only [CcittCode.outLen, pyDiv]
+  rw [Int.fdiv_eq_ediv_of_nonneg _ (by omega)]
+  omega
+
+theorem outByte_eq (l : List Bool) (j : Nat) : outByte l j = byteOfBits (l.drop (8 * j)) := by
+  simp [outByte, byteOfBits, CcittCode.outMasks, List.range, List.range.loop, bitVal, List.getD_eq_getElem?_getD,
+    List.getElem?_drop, Nat.add_assoc]
+
+theorem byteOfBits_take (b0 b1 b2 b3 b4 b5 b6 b7 : Bool) (rest : List Bool) :
+    byteOfBits (b0 :: b1 :: b2 :: b3 :: b4 :: b5 :: b6 :: b7 :: rest) = byteOfBits [b0, b1, b2, b3, b4, b5, b6, b7] := rfl
+
+theorem range_map_packBits : ∀ l : List Bool,
+    (List.range ((l.length + 7) / 8)).map (fun j => byteOfBits (l.drop (8 * j))) = packBits l := by
+  intro l
+  induction l using packBits.induct with
+  | case1 => rfl
+  | case2 b0 b1 b2 b3 b4 b5 b6 b7 rest ih =>
+    have hl : ((b0 :: b1 :: b2 :: b3 :: b4 :: b5 :: b6 :: b7 :: rest).length + 7) / 8 = (rest.length + 7) / 8 + 1 := by
+      simp only [List.length_cons]; omega
+    rw [hl, List.range_succ_eq_map, List.map_cons, List.map_map, packBits, ← ih]
+    congr 1
+  | case3 l h1 h2 =>
+    rcases l with _ | ⟨b0, _ | ⟨b1, _ | ⟨b2, _ | ⟨b3, _ | ⟨b4, _ | ⟨b5, _ | ⟨b6, _ | ⟨b7, rest⟩⟩⟩⟩⟩⟩⟩⟩
+    · exact absurd rfl h1
+    all_goals first
+      | exact absurd rfl (h2 _ _ _ _ _ _ _ _ _)
+      | simp [packBits, List.range, List.range.loop]
+
+theorem packLine_eq (rv : Bool) (bits : List Bool) :
+    packLine rv bits = packBits (if rv then bits.map (!·) else bits) := by
+  simp only [packLine, outLen_nat]
+  have hf : (List.map CcittCode.outFlip bits) = bits.map (!·) := rfl
+  rw [hf, ← range_map_packBits]
+  apply List.map_congr_left
+  intro j _
+  exact outByte_eq _ j
+theorem packLine_fun (rv : Bool) : packLine rv = fun r => packBits (if rv then r.map (!·) else r) := by
+  funext r; exact packLine_eq rv r
 
 /-! ### bits and octets -/
 
@@ -434,7 +479,7 @@ theorem feed_image (hw : 1 ≤ w) (rows : List (List Bool)) (chs : List (List T6
   | true =>
     simp only [if_true]
     rw [feed_follow_leaf _ st1 _ _ (.mode .e) (by decide) (by rw [hr1.node]; exact mode_codes_ok.2.2.1)]
-    simp only [accept, hr1.acc, parseMode, afterAccept]
+    simp only [accept, hr1.acc, parseMode, modeAction_e, afterAccept]
     exact ⟨_, rfl, hr1.bf⟩
   | false =>
     simp only [Bool.false_eq_true, if_false, List.nil_append]
